@@ -59,7 +59,7 @@ def run(tier):
                                                "note": ['plain', 'a,b', 'say "hi"', 'x;y', 'caf\u00e9', ' lead', 'tab\tx'][(n + j) % 7]}
                                               for j, s in enumerate(inputs)]
         runs.append({"name": "L%d" % n, "inputs": data, "form": form, "batch_size": bs if bs else None,
-                     "n_jobs": 1, "threshold": 0, "kinds": list(kinds)})
+                     "n_jobs": 1, "threshold": 0, "kinds": list(kinds), "also_plain": n % 3 != 2, "ctor_bs": n % 2 == 0})
     # missing values in dict / json sources
     runs.append({"name": "missing_dict", "inputs": [{"reaction": "CCO>>CCO"}, {"reaction": None}, {"reaction": "CC>>CCC"}],
                  "form": "dict", "batch_size": 2, "n_jobs": 1, "threshold": 0, "kinds": ["ok", "nosep", "ok"]})
